@@ -146,6 +146,31 @@ B6 = {
  "C19-7": ("C19", "a second bundle with a different CA loaded in the same process", "system root pool built once and shared; every bundle's CA is appended to it: servers under the other bundle's CA accepted"),
  "C20-7": ("C20", "protocol-version spelled v4 explicitly together with max-protocol-version v3", "'default version follows a lowered max' cannot tell the default from an explicit v4: starts and speaks v3"),
 }
+B7 = {
+ "C01-9": ("C01", "an UNPREPARED answer for a cached statement handled while the pooled connection is being closed from the proxy's own side (idle timeout, host removal), so that the re-PREPARE cannot be sent", "the request moves on only for StreamsExhausted; for any other send error nobody holds it any more: never answered"),
+ "C01-10": ("C01", "USE of the keyspace the connection is already in (same spelling), as QUERY or as a prepared USE executed twice", "'skip the session lock if nothing changes' wraps the whole handling, the SET_KEYSPACE answer included: no response"),
+ "C02-7": ("C02", "a saturated backend connection that has refused about 63.5k requests over its life, then a request while low stream ids are still in flight", "stream ids handed out from a 16-bit counter that also advances on refusals: an id in use is handed out again, answers swapped"),
+ "C03-9": ("C03", "an lz4 client and a request body in which a later part repeats the first bytes of the body (a match copied from offset 0)", "off-by-one in the match bound of the LZ4 block decoder: valid block rejected, connection dropped, nothing forwarded"),
+ "C05-11": ("C05", "about 2^32 requests on one proxy, a host count that is not a power of two, and a request that needs retries right before the wrap", "plan offset narrowed to uint32 and added to the index without reducing it first: one host twice, one never, inside a single plan"),
+ "C06-10": ("C06", "a textual BATCH with a child INSERT ... USING TTL/TIMESTAMP that is not followed by ';' and a non-idempotent next child", "the token after the USING clause is swallowed: the next child is never classified, batch reported idempotent"),
+ "C07-7": ("C07", "USE ending in ';' (cqlsh style)", "new end-of-statement check in the USE recogniser forgets the ';' token: the USE is forwarded like a data query, the client's keyspace is not updated and a shared pooled connection is"),
+ "C08-6": ("C08", "a client that negotiated lz4/snappy, a PREPARE carrying a custom payload, an EXECUTE routed to a host that lacks the statement", "cached PREPARE rebuilt with NewFrame: custom payload flag and payload dropped from every re-PREPARE"),
+ "C08-7": ("C08", "a BATCH with a prepared child routed to a host without the statement", "early return for requests that 'cannot be UNPREPARED' decides by opcode EXECUTE only: UNPREPARED answers to batches reach the client"),
+ "C09-9": ("C09", "max protocol version v5/DSEv2, a PREPARE that names its keyspace (WITH_KEYSPACE) and an unqualified look-alike table", "handled/forwarded decision made with the connection's keyspace instead of the PREPARE's"),
+ "C09-10": ("C09", ">= 2 connections prepare the same system statement (or USE), one of them closes, a survivor executes its id", "proxy-wide map of proxy-answered prepared statements cleaned when any owner closes: EXECUTE forwarded to the backend"),
+ "C10-9": ("C10", "a peer rpc-address whose text is not canonical (expanded or upper-case IPv6, IPv4-mapped, host name)", "peer host ids computed once from the configured text instead of the resolved address: differ from what that peer presents as local"),
+ "C11-9": ("C11", "QUERY or EXECUTE whose consistency is SERIAL or LOCAL_SERIAL", "consistency validation added with IsNonSerial(): valid body rejected, connection dropped"),
+ "C12-8": ("C12", "a SELECT prepared on connection A, A closes, the id executed on connection B with a consistency in the list", "per-connection clean-up deletes the shared prepared-id metadata: prepared SELECT treated as a write and rewritten"),
+ "C13-10": ("C13", "STARTUP with COMPRESSION spelled in upper or mixed case", "backend handshake indexes the codec map with the raw spelling: READY to the client, but no backend session can be created"),
+ "C14-10": ("C14", "more than one REGISTER naming SCHEMA_CHANGE on one connection (or the type listed twice)", "event clients kept in a slice without idempotent insert: every event k times, stale entries after disconnect"),
+ "C15-12": ("C15", "a topology event, then the control connection lost and down for longer than the refresh window, then fail-over and later changes", "expired refresh timer drained while disconnected without clearing the pending flag: later events ignored"),
+ "C16-9": ("C16", ">= 45 reconnect attempts without a success (hours of outage with the default policy)", "attempt counter no longer bounded: the shift overflows, negative / tiny delays"),
+ "C17-10": ("C17", "a client that fills its queue without reading and then goes away (or is disconnected)", "Conn.Write no longer selects on the closed channel while waiting for queue space: backend read loops stay blocked, other clients unanswered"),
+ "C18-10": ("C18", "clients of two protocol versions using one prepared statement, both answered UNPREPARED at once", "version written into the header of the shared cached PREPARE frame"),
+ "C18-11": ("C18", "loss and re-establishment of the control connection while clients send OPTIONS / system reads", "Cluster.Info reassigned on every reconnect while client read loops read it"),
+ "C19-9": ("C19", "an endpoint that has once been shown a chain containing the intermediate, then a server presenting only a leaf under it", "intermediates pool kept per endpoint across handshakes: incomplete chain accepted"),
+}
+B6.update(B7)
 B5.update(B6)
 B4.update(B5)
 B3.update(B4)
@@ -175,7 +200,7 @@ for sid in sorted(os.listdir(os.path.join(V, "seeded"))):
         demos = sorted(f for f in os.listdir(d) if f not in ("patch.diff", "meta.json", "notes.md"))
         meta = {
             "id": sid, "breaks_property": prop,
-            "origin": "fresh sub-agent given only the property text and a scratch worktree of /repo (commit %s)" % ("19163b6 (round 6)" if sid in B6 else "19163b6" if sid in B5 else "78cb41b" if sid in B4 else "98f4792" if sid in B3 else "2fe6b89"),
+            "origin": "fresh sub-agent given only the property text and a scratch worktree of /repo (commit %s)" % ("19163b6 (round 7)" if sid in B7 else "19163b6 (round 6)" if sid in B6 else "19163b6" if sid in B5 else "78cb41b" if sid in B4 else "98f4792" if sid in B3 else "2fe6b89"),
             "needs_to_manifest": needs, "effect": effect, "demonstration": demos,
             "confirmed": "bin/seedconfirm in the scratch worktree: patch applies, go build ok, existing suite passes with it (in a private network namespace), demonstration FAILS with the patch and PASSES without it",
             "checks_run": "bin/seedtest seeded/%s/patch.diff quick %s ; bin/seedmatrix quick" % (sid, prop),
